@@ -248,3 +248,27 @@ Proof.
   intros ss P L. rewrite (legacy_valid_intro m ss P L) in V. apply andb_true_iff in V. destruct V as [V1 V2].
   apply String.eqb_eq in V1. apply String.eqb_eq in V2. cbn in V1. auto.
 Qed.
+
+(* ---------- limited capacity (MaxRequestAmplification) ---------- *)
+Lemma mask_nil arr : mask [] arr = arr.
+Proof. unfold mask. cbn [existsb]. induction arr as [|[r a] arr IH]; [reflexivity|]. cbn [map]. rewrite IH. reflexivity. Qed.
+
+(* the model, run on the remotes that were asked (the others count as silent), meets the specification with the
+   availability clause, provided a remote is left unasked only when silent remotes can exhaust the capacity *)
+Theorem fan_model_meets_spec2 amp req local arr unasked :
+  unasked = [] \/ must_ask amp arr = false ->
+  spec_fget2 amp req local arr unasked (fan_get req local (mask unasked arr)) = true.
+Proof.
+  intros H. pose proof (fan_model_meets_spec req local (mask unasked arr)) as S. unfold spec_fget2.
+  destruct (fan_get req local (mask unasked arr)) as [c [m'|]]; [exact S|].
+  destruct (must_ask amp arr) eqn:M; [|exact S]. destruct H as [->|H]; [|discriminate]. rewrite mask_nil in S. exact S.
+Qed.
+(* what the availability clause says: if the client gets no manifest although the silent remotes cannot exhaust
+   the capacity, then no configured remote - asked or not - holds an honest answer *)
+Theorem spec_fget2_availability amp req lb arr unasked c :
+  spec_fget2 amp req (HResp 404 lb) arr unasked (FRes c None) = true -> must_ask amp arr = true ->
+  forall r p m ss, In (r, HResp 200 (BCol p m)) arr -> p = (if req =? "" then p else req) ->
+                   parse m = Some ss -> forallb legacy_stream ss = true -> pdh m <> p.
+Proof.
+  unfold spec_fget2. intros S M. rewrite M in S. exact (proj2 (spec_fget_reads req lb arr c None S)).
+Qed.
